@@ -57,6 +57,10 @@ func (m *recorder) PostProcessProperties(props []*component_definition.Property,
 	m.mu.Lock()
 	defer m.mu.Unlock()
 	for _, p := range props {
+		if p.Tag == "plug" {
+			m.seen["plug:"+name] = append(m.seen["plug:"+name], fmt.Sprintf("%s|%s|%s", p.StructField.Name, p.TagVal, p.Args().String()))
+			continue
+		}
 		if p.Tag != "mytag" {
 			continue
 		}
@@ -68,6 +72,12 @@ func (m *recorder) PostProcessProperties(props []*component_definition.Property,
 	}
 	return nil, nil
 }
+
+type plugScanner struct {
+	processors.DefaultTagScanDefinitionRegistryPostProcessor
+}
+
+func (m *plugScanner) Naming() string { return "verif.plugscanner" }
 
 type mytagScanner struct {
 	processors.DefaultTagScanDefinitionRegistryPostProcessor
@@ -126,6 +136,12 @@ func genLeaves(c *core.Ctx) []leaf {
 		case 12:
 			add(leaf{typ: loggerType, tag: `logger:""`, kind: "logger"})
 		case 13:
+			if c.Rng.Intn(3) == 0 {
+				// a second user tag processor that declares the component property type for its (optional) tag, on
+				// fields of kinds no component fits into: it is handed its fields all the same
+				add(leaf{typ: []reflect.Type{reflect.TypeOf(map[string]string{}), reflect.TypeOf(func() {}), reflect.TypeOf(0)}[c.Rng.Intn(3)], tag: `plug:"p1,required=false,k=v"`, kind: "plug", expect: "p1,required=false,k=v"})
+				break
+			}
 			// (values with blanks at their ends are handed over as written)
 			v := []string{"v1,k=a b", "plain", "x,Flag,n=[1,2] z", " | ", "  ,kind=prefix", " padded ,k=a b", "tail  ", "-", "-"}[c.Rng.Intn(9)]
 			add(leaf{typ: reflect.TypeOf(0), tag: fmt.Sprintf("mytag:%q", v), kind: "custom", expect: v})
@@ -282,6 +298,15 @@ func (p c11) Run(c *core.Ctx) {
 		}
 	}
 	sort.Strings(custom)
+	var plugs []string
+	for _, l := range ls {
+		if l.kind == "plug" {
+			v, _ := refParse(l.expect.(string))
+			pr := component_definition.NewProperty(dummyField, "x", "plug", l.expect.(string))
+			plugs = append(plugs, fmt.Sprintf("%s|%s|%s", l.name, v, pr.Args().String()))
+		}
+	}
+	sort.Strings(plugs)
 	nontrivial := false
 	sig := ""
 	for s := 0; s <= shapes; s++ {
@@ -325,7 +350,7 @@ func (p c11) Run(c *core.Ctx) {
 				}
 				return "", "", false
 			}}}
-		extra := []any{h, rec, scan}
+		extra := []any{h, rec, scan, &plugScanner{processors.DefaultTagScanDefinitionRegistryPostProcessor{NodeType: component_definition.PropertyTypeComponent, Tag: "plug"}}}
 		if s%2 == 1 {
 			// an early user post-processor that answers with the properties it handled (none)
 			extra = append(extra, &world.SubsetPP{Ord: []int{1, 3, -7}[s%3], Tag: "no-such-tag"})
@@ -356,7 +381,7 @@ func (p c11) Run(c *core.Ctx) {
 				continue
 			}
 			res.values[l.name] = renderLeaf(r, l, got)
-			if l.expect != nil && l.kind != "custom" {
+			if l.expect != nil && l.kind != "custom" && l.kind != "plug" {
 				want := fmt.Sprint(l.expect)
 				if res.values[l.name] != want {
 					c.Fail("", fmt.Sprintf("arrangement %d (depth %d): leaf %s `%s` holds %s, expected %s", s, depth, l.name, l.tag, res.values[l.name], want),
@@ -391,6 +416,12 @@ func (p c11) Run(c *core.Ctx) {
 		res.rec = got
 		if !reflect.DeepEqual(got, custom) && !(len(got) == 0 && len(custom) == 0) {
 			c.Fail("", fmt.Sprintf("arrangement %d: the user tag processor received %v, expected exactly %v", s, got, custom), map[string]any{"type": typ.String()})
+			return
+		}
+		gotPlug := append([]string(nil), rec.seen["plug:"+name]...)
+		sort.Strings(gotPlug)
+		if !reflect.DeepEqual(gotPlug, plugs) && !(len(gotPlug) == 0 && len(plugs) == 0) {
+			c.Fail("", fmt.Sprintf("arrangement %d: the user tag processor for `plug` (component property type) received %v, expected exactly %v", s, gotPlug, plugs), map[string]any{"type": typ.String()})
 			return
 		}
 		results = append(results, res)
